@@ -6,7 +6,7 @@ import time
 from concurrent.futures import ThreadPoolExecutor
 
 import vcheck as vc
-from procmon import Engine, oracle_positions, oracle_games, oracle, position_cmd, now
+from procmon import Engine, oracle_positions, oracle_games, oracle_heavy, oracle, position_cmd, now
 
 START_LEGAL = sorted(["a2a3", "a2a4", "b2b3", "b2b4", "c2c3", "c2c4", "d2d3", "d2d4", "e2e3", "e2e4", "f2f3", "f2f4",
                       "g2g3", "g2g4", "h2h3", "h2h4", "b1a3", "b1c3", "g1f3", "g1h3"])
@@ -428,6 +428,12 @@ def c14_stage(out, tier, seed):
     for _ in range(n):
         cases.append((rng.choice(positions), rng.choice([200, 200, 250, 300, 500, 1000, 2000]), rng.choice([0, 0, 10, 100]),
                       rng.choice([None, None, 1, 2, 40])))
+    # positions whose FIRST iteration alone outlasts the clock (many queens: the capture search explodes):
+    # the limit has to be enforced inside iteration 1 too
+    heavy = oracle_heavy(harness, 16 if thorough else 4, seed + 14, 300)
+    for hp in heavy:
+        cases.append((hp, rng.choice([200, 300, 500]), 0, rng.choice([None, 1])))
+        out.features["timed_searches_quiescence_heavy"] = out.features.get("timed_searches_quiescence_heavy", 0) + 1
     lock = threading.Lock()
     margins = []
 
@@ -491,8 +497,10 @@ def c14_stage(out, tier, seed):
         return r
 
     mt_cases = []
+    # middlegame-like positions far from the fifty-move boundary, so that the search cannot run out of depth
+    roomy = [p for p in positions if int(p["fen"].split()[4]) < 40 and sum(c.isalpha() for c in p["fen"].split()[0]) >= 12] or positions
     for _ in range(60 if thorough else 8):
-        mt_cases.append((rng.choice(positions), rng.choice([0, 100, 1000, 1000]), rng.choice([300, 800, 1500])))
+        mt_cases.append((rng.choice(roomy), rng.choice([0, 100, 1000, 1000]), rng.choice([300, 800, 1500])))
 
     def mt_work(c):
         r = movetime_case(c)
